@@ -6,8 +6,8 @@ proxy header values are symbolic strings."""
 import z3
 
 from harness import common
-from wsx.core import E, PathAbort, s_and, sym_equal
-from wsx.data import SymStr, SymSeq
+from wsx.core import E, PathAbort, s_and, s_or, sym_equal
+from wsx.data import SymStr, SymSeq, lift
 
 PROPERTY = "C16"
 BUDGET = {"quick": 900, "thorough": 3000}
@@ -178,6 +178,10 @@ def scenario(ns, inp):
                 b=_call(ns, inp["trusted"], inp["count"], {hk: left + "," + right}, True))
 
 
+def _has(x, ch):
+    return ch in x if isinstance(x, str) else (lift(x).find(ch) >= 0)
+
+
 def _total(o):
     return o[0] == "app" or o[0] == "status:400"
 
@@ -187,6 +191,28 @@ def oracle(inp, obs):
     out = []
     for k in sorted(obs):
         out.append(("outcome is an application call or a 400 response, never an exception or another status (got %s)" % obs[k][0], _total(obs[k])))
+        if obs[k][0] == "app":
+            e = obs[k][1]
+            out.append(("an unsupported scheme is refused: wsgi.url_scheme handed to the application is http or https",
+                        s_or(sym_equal(e["wsgi.url_scheme"], "http"), sym_equal(e["wsgi.url_scheme"], "https"))))
+            out.append(("an empty client address is refused: REMOTE_ADDR handed to the application is not empty", len(e["REMOTE_ADDR"]) > 0))
+            out.append(("several values where one is required are refused: SERVER_PORT handed to the application is a single value",
+                        not bool(_has(e["SERVER_PORT"], ","))))
+    if fam == "TOT":
+        (kind,) = inp["trusted"]
+        v = inp["headers"][KINDS[kind]]
+        if kind in ("x-forwarded-proto", "x-forwarded-port") and len(v):
+            lone = bool(lift(v)[:1] == '"') != bool(lift(v)[-1:] == '"')
+            if lone or (len(v) == 1 and bool(lift(v) == '"')):
+                out.append(("bad quoting (a lone double quote at one end) is refused with 400", obs["a"][0] == "status:400"))
+        if kind == "forwarded" and len(v):
+            bad_pair = False
+            for el in lift(v).split(","):
+                for pair in lift(el).strip().split(";") if len(el) else []:
+                    if len(pair) and not bool(_has(pair, "=")):
+                        bad_pair = True
+            if bad_pair:
+                out.append(("a Forwarded pair without '=' is refused with 400", obs["a"][0] == "status:400"))
     if fam == "KIND":
         a, b = obs["a"], obs["b"]
         if a[0] == "app" and b[0] == "app":
